@@ -75,20 +75,22 @@ Fixpoint next_nonempty (fs : list frame) (pos : N) : option (frame * N * list fr
 
 Inductive rmode := Parse | IntoBuf.
 
-(* ---- THE F1 SWITCH -------------------------------------------------------------------
-   In the pinned tree, when read_frame_into finds no frame (end of stream) the block is left
-   exactly as it was.  [eof_resets_block := true] is the behaviour after the proposed repair
-   (reset the block to an empty one at the current position). *)
-Definition eof_resets_block : bool := false.
-
-Definition on_no_frame (st : state) : state :=
-  if eof_resets_block
-  then mkState (rest st) (position st) (position st) 0 0 0 (buf st)
-  else st.
+(* ---- BEHAVIOUR SWITCH ---------------------------------------------------------------------
+   Every function below that depends on it takes [fx : bool]:
+     fx = false : the reader as pinned (two known defects: seek-eof-stale-block,
+                  direct-read-at-eof-stale-len);
+     fx = true  : the reader after the repair
+                  (a) read_nonempty_block_with returns 0 when no non-empty block was read,
+                  (b) seek turns the block into an empty block at [position] when read_block read
+                      no non-empty block,
+                  (c) Data::set_position clamps to the data length.
+   [pinned_tree_repaired] says which of the two the tree under /repo currently is; it is the only
+   line to change when the repair is committed (the driver runs the model with it). *)
+Definition pinned_tree_repaired : bool := false.
 
 Definition read_nonempty_block (m : rmode) (st : state) : state * option frame :=
   match next_nonempty (rest st) (position st) with
-  | None => (on_no_frame st, None)
+  | None => (st, None)
   | Some (b, p, r, np) =>
       (mkState r np p (csize b) (flen b)
          (match m with Parse => 0 | IntoBuf => flen b end)
@@ -109,11 +111,11 @@ Definition fill_buf (st : state) : state * res (list N) :=
 Definition SENTINEL : N := 170.
 
 (* Read::read with a buffer of n bytes; result = buf[..amt] *)
-Definition read (st : state) (n : N) : state * res (list N) :=
+Definition read (fx : bool) (st : state) (n : N) : state * res (list N) :=
   if negb (has_remaining st) && (65536 <=? n) then
     match read_nonempty_block IntoBuf st with
     | (st', Some b) => (st', Ok (fdata b))
-    | (st', None) => (st', Ok (repeat SENTINEL (N.to_nat (blen st'))))
+    | (st', None) => (st', Ok (repeat SENTINEL (N.to_nat (if fx then 0 else blen st'))))
     end
   else
     match fill_buf st with
@@ -128,16 +130,16 @@ Definition read (st : state) (n : N) : state * res (list N) :=
 
 (* default_read_exact (reader.rs) = std::io::default_read_exact on a reader that never
    returns Interrupted: read until the buffer is full or a read returns 0 *)
-Fixpoint default_read_exact (fuel : nat) (st : state) (remaining : N) (acc : list N)
+Fixpoint default_read_exact (fx : bool) (fuel : nat) (st : state) (remaining : N) (acc : list N)
   : state * res (list N) :=
   match fuel with
   | O => (st, OutOfFuel)
   | S k =>
       if remaining =? 0 then (st, Ok acc)
-      else match read st remaining with
+      else match read fx st remaining with
            | (st', Ok bs) =>
                if len bs =? 0 then (st', Err UnexpectedEof)
-               else default_read_exact k st' (remaining - len bs) (acc ++ bs)
+               else default_read_exact fx k st' (remaining - len bs) (acc ++ bs)
            | (st', Err e) => (st', Err e)
            | (st', Panic) => (st', Panic)
            | (st', OutOfFuel) => (st', OutOfFuel)
@@ -145,15 +147,15 @@ Fixpoint default_read_exact (fuel : nat) (st : state) (remaining : N) (acc : lis
            end
   end.
 
-Definition read_exact_std (st : state) (n : N) : state * res (list N) :=
-  default_read_exact (S (N.to_nat n)) st n [].
+Definition read_exact_std (fx : bool) (st : state) (n : N) : state * res (list N) :=
+  default_read_exact fx (S (N.to_nat n)) st n [].
 
 (* Reader's own read_exact: copy from the block when it holds enough *)
-Definition read_exact (st : state) (n : N) : state * res (list N) :=
+Definition read_exact (fx : bool) (st : state) (n : N) : state * res (list N) :=
   match as_ref st with
   | Ok src =>
       if n <=? len src then (consume st n, Ok (firstn (N.to_nat n) src))
-      else read_exact_std st n
+      else read_exact_std fx st n
   | Err e => (st, Err e)
   | Panic => (st, Panic)
   | OutOfFuel => (st, OutOfFuel)
@@ -171,21 +173,26 @@ Fixpoint drop_to (fs : list frame) (at_ : N) (cpos : N) : option (list frame) :=
       else drop_to r (at_ + csize b) cpos
   end.
 
-Definition seek (f : file) (st : state) (v : N) : state * res N :=
+Definition seek (fx : bool) (f : file) (st : state) (v : N) : state * res N :=
   let c := vcomp v in
   let u := vuncomp v in
   match drop_to f 0 c with
   | None => (st, Unmodelled)
   | Some r =>
       let st1 := mkState r c (bpos st) (bsize st) (blen st) (cur st) (buf st) in
-      let st2 := fst (read_nonempty_block Parse st1) in
-      (mkState (rest st2) (position st2) (bpos st2) (bsize st2) (blen st2) u (buf st2), Ok v)
+      let '(st2, ld) := read_nonempty_block Parse st1 in
+      let none_read := match ld with Some b => flen b =? 0 | None => true end in
+      let st3 := if fx && none_read
+                 then mkState (rest st2) (position st2) (position st2) 0 0 0 (buf st2)
+                 else st2 in
+      (mkState (rest st3) (position st3) (bpos st3) (bsize st3) (blen st3)
+               (if fx then N.min u (blen st3) else u) (buf st3), Ok v)
   end.
 
-Definition seek_by_uncompressed_position (f : file) (idx : gzi_index) (st : state) (pos : N)
+Definition seek_by_uncompressed_position (fx : bool) (f : file) (idx : gzi_index) (st : state) (pos : N)
   : state * res N :=
   match gzi_query idx pos with
-  | Ok v => match seek f st v with
+  | Ok v => match seek fx f st v with
             | (st', Ok _) => (st', Ok pos)
             | r => r
             end
@@ -204,31 +211,31 @@ Inductive out :=
 | OUnit
 | OPos (r : res N).
 
-Definition step (f : file) (idx : gzi_index) (st : state) (o : op) : state * out :=
+Definition step (fx : bool) (f : file) (idx : gzi_index) (st : state) (o : op) : state * out :=
   match o with
-  | Read n => let '(s, r) := read st n in (s, OBytes r)
-  | ReadExact n => let '(s, r) := read_exact st n in (s, OBytes r)
-  | ReadExactStd n => let '(s, r) := read_exact_std st n in (s, OBytes r)
+  | Read n => let '(s, r) := read fx st n in (s, OBytes r)
+  | ReadExact n => let '(s, r) := read_exact fx st n in (s, OBytes r)
+  | ReadExactStd n => let '(s, r) := read_exact_std fx st n in (s, OBytes r)
   | FillBuf => let '(s, r) := fill_buf st in (s, OBytes r)
   | Consume n => (consume st n, OUnit)
-  | Seek v => let '(s, r) := seek f st v in (s, OPos r)
-  | SeekU p => let '(s, r) := seek_by_uncompressed_position f idx st p in (s, OPos r)
+  | Seek v => let '(s, r) := seek fx f st v in (s, OPos r)
+  | SeekU p => let '(s, r) := seek_by_uncompressed_position fx f idx st p in (s, OPos r)
   end.
 
 (* a history: after every op, its result and the virtual position then reported *)
-Fixpoint run (f : file) (idx : gzi_index) (st : state) (ops : list op)
+Fixpoint run (fx : bool) (f : file) (idx : gzi_index) (st : state) (ops : list op)
   : list (out * res N) :=
   match ops with
   | [] => []
   | o :: r =>
-      let '(st', x) := step f idx st o in
-      (x, virtual_position st') :: run f idx st' r
+      let '(st', x) := step fx f idx st o in
+      (x, virtual_position st') :: run fx f idx st' r
   end.
 
-Fixpoint run_state (f : file) (idx : gzi_index) (st : state) (ops : list op) : state :=
+Fixpoint run_state (fx : bool) (f : file) (idx : gzi_index) (st : state) (ops : list op) : state :=
   match ops with
   | [] => st
-  | o :: r => run_state f idx (fst (step f idx st o)) r
+  | o :: r => run_state fx f idx (fst (step fx f idx st o)) r
   end.
 
 (* the gzi index of a file: one entry (compressed offset, uncompressed offset) per frame
